@@ -506,10 +506,14 @@ pub(crate) struct WritersHandle {
 impl WritersHandle {
     fn set_new_spec(&self, new_spec: LogSpecification) -> Result<(), FlexiLoggerError> {
         let max_level = new_spec.max_level();
+        #[cfg(flexi_logger_verif)]
+        crate::verif_hooks::sync_op(crate::verif_hooks::Op::Point("spec_write"));
         self.spec
             .write()
             .map_err(|_| FlexiLoggerError::Poison)?
             .update_from(new_spec);
+        #[cfg(flexi_logger_verif)]
+        crate::verif_hooks::sync_op(crate::verif_hooks::Op::Point("spec_written"));
         self.reconfigure(max_level);
         Ok(())
     }
@@ -518,6 +522,8 @@ impl WritersHandle {
         for w in self.other_writers.as_ref().values() {
             max_level = std::cmp::max(max_level, w.max_log_level());
         }
+        #[cfg(flexi_logger_verif)]
+        crate::verif_hooks::sync_op(crate::verif_hooks::Op::Point("set_max_level"));
         log::set_max_level(max_level);
     }
 }
